@@ -13,9 +13,10 @@ import RisorModel.C03.Model
   `killed <why>`: outcome for the process of a body run under that entry (Impl: all three
   recover scopes present); `ops:` bodies run on a fresh VM (`Vm.init`)
 * `nest <run|call|thread> <limit> <op,op,…*count;…>` (ops: callOp callback hostCall importMod
-  deferred = enter through that re-entry, leave, exitDefers, defersDone; each `;`-separated
-  group is repeated `count` times) → `value` | `error <why>` | `killed <why>`, then `peak=<n>`
-  (the guard `peakOpen` of the sequence): `nestRun limit` from `Nest.init` under that entry
+  deferred = enter through that re-entry, leave, exitDefers, defersDone, leaveMod; each
+  `;`-separated group is repeated `count` times) → `value` | `error <why>` (a recovered Go
+  panic) | `raised <why>` (an ordinary evaluation error: the call depth) | `killed <why>`, then
+  `peak=<n>` (`peakOpen` of the sequence): `nestRun limit` from `Nest.init` under that entry
 * `importseq <name:state,…>` (state m = no file, b = a file that does not compile, g = a file
   that compiles) → `ok <M|Enf|Ebad,…>` | `fatal <call index> <why>` | `blocked <call index>`:
   `importSeq implPaths` on a fresh importer
@@ -121,6 +122,7 @@ def parseNOp (s : String) : Option NOp :=
   | "leave" => some .leave
   | "exitDefers" => some .exitDefers
   | "defersDone" => some .defersDone
+  | "leaveMod" => some .leaveMod
   | _ => none
 
 def parseNestOps (s : String) : Option (List NOp) :=
@@ -160,6 +162,7 @@ def handle : List String → String
       match enterNest requiredRecovers e (nestRun lim Nest.init l) with
       | .value => "value" ++ pk
       | .error w => "error\t" ++ w ++ pk
+      | .raised w => "raised\t" ++ w ++ pk
       | .killed w => "killed\t" ++ w ++ pk
     | _, _, _ => "error?\tbad-nest"
   | ["importseq", steps] =>
@@ -209,6 +212,7 @@ def handle : List String → String
       match enterImpl e b with
       | .value => "value"
       | .error w => "error\t" ++ w
+      | .raised w => "raised\t" ++ w
       | .killed w => "killed\t" ++ w
     | _, _ => "error?\tbad-enter"
   | ["inspect", heap, v] =>
